@@ -38,6 +38,7 @@ fn cs(parts: &[(&[i32], &[u8])]) -> Vec<u8> {
 
 const HSTEM: &[u8] = &[1];
 const VSTEM: &[u8] = &[3];
+const RLINETO: &[u8] = &[5];
 const HLINETO: &[u8] = &[6];
 const VLINETO: &[u8] = &[7];
 const RRCURVETO: &[u8] = &[8];
@@ -185,6 +186,74 @@ pub fn charstrings() -> Vec<(String, Vec<u8>)> {
                 c.extend(cs(&[(&[100], VLINETO), (&[-300], HLINETO), (&[], ENDCHAR)]));
                 out.push((name.into(), c));
             }
+        }
+    }
+    // F' flex operand sub-family. Every flex here is followed by two more relative segments, so a wrong
+    // flex end point shifts the rest of the path.
+    let tail: [(&[i32], &[u8]); 3] = [(&[37, 23], RLINETO), (&[-19, 45], RLINETO), (&[], ENDCHAR)];
+    // flex1: the last operand is dx or dy depending on whether |dx| > |dy| accumulated over the first
+    // five points (a tie counts as "dy"): sums on both sides of, and exactly on, the tie in all four
+    // sign combinations, on the axes and at zero; last operand of either sign
+    for (sx, sy) in [
+        (250, 100),
+        (100, 250),
+        (200, 200),
+        (200, -200),
+        (-200, 200),
+        (-200, -200),
+        (0, 200),
+        (200, 0),
+        (0, 0),
+        (210, 200),
+        (200, 210),
+        (-190, 200),
+    ] {
+        for d6 in [50, -50] {
+            // the five deltas: weights 3,2,0,2,3 (x) and 1,3,2,3,1 (y), in tenths of the sum
+            let dx: Vec<i32> = [3, 2, 0, 2, 3].iter().map(|w| sx * w / 10).collect();
+            let dy: Vec<i32> = [1, 3, 2, 3, 1].iter().map(|w| sy * w / 10).collect();
+            let mut args = vec![];
+            for i in 0..5 {
+                args.push(dx[i]);
+                args.push(dy[i]);
+            }
+            args.push(d6);
+            let mut c = cs(&[(&[300, 250], RMOVETO), (&args, FLEX1)]);
+            c.extend(cs(&tail));
+            out.push(("flex1 by accumulated direction".into(), c));
+        }
+    }
+    // flex: flex depth operand around 50 (hundredths of a device pixel) × flex height, on the baseline
+    // and on a blue zone
+    for base in [0, 500] {
+        for fd in [0, 1, 49, 50, 51, 100] {
+            for fh in [0, 1, 2, 5] {
+                let args = vec![50, 0, 50, fh, 50, 0, 50, 0, 50, -fh, 50, 0, fd];
+                let mut c = cs(&[(&[base, 100], HSTEM), (&[100, base], RMOVETO), (&args, FLEX)]);
+                c.extend(cs(&tail));
+                out.push(("flex depth".into(), c));
+            }
+        }
+    }
+    // hflex / hflex1 operand alphabets
+    for base in [0, 500] {
+        for dy2 in [0, 1, -1, 20, -20] {
+            let mut c = cs(&[
+                (&[base, 100], HSTEM),
+                (&[100, base], RMOVETO),
+                (&[50, 50, dy2, 50, 50, 50, 50], HFLEX),
+            ]);
+            c.extend(cs(&tail));
+            out.push(("hflex operands".into(), c));
+        }
+        for (dy1, dy2, dy5) in [(0, 20, -20), (10, 10, -20), (-10, 30, -20), (5, 5, 5), (0, 0, 0)] {
+            let mut c = cs(&[
+                (&[base, 100], HSTEM),
+                (&[100, base], RMOVETO),
+                (&[50, dy1, 50, dy2, 50, 50, 50, dy5, 50], HFLEX1),
+            ]);
+            c.extend(cs(&tail));
+            out.push(("hflex1 operands".into(), c));
         }
     }
     // G round shapes with undershoot b and overshoot t
